@@ -12,7 +12,9 @@ Class(line, bad) ==
    (*          and trims leading "../": with a root loaded from a relative path, shared/x.json (below the root's directory) and  *)
    (*          ../shared/x.json (beside it) both become "shared_x_X"                                                                *)
    IF c.shape \in {"collision", "samepath_twohosts"} /\ bad = {"resolves_to_same_content"} THEN "default_name_collision"
-   ELSE IF c.shape = "sametail" /\ bad = {"resolves_to_same_content"} THEN "default_name_collision"       \* (whether it shows depends on how the root's own location is spelled)
+   ELSE IF c.shape = "sametail" /\ bad = {"resolves_to_same_content"}
+           /\ c.entry \in {"file_rel", "file_rel_default", "data", "reader", "uri_remote"}      \* (it shows only when the root's own location is relative, absent or remote; under an
+        THEN "default_name_collision"                                                            \*  absolute file path the two files get different names, and must)
    (* F-C16-2: references inside a callback that lives in an external file are not rewritten      *)
    ELSE IF c.kind = "callbacks" /\ c.shape \in {"childlocal", "childlocal_shadow", "childpair_local", "selfcycle", "mutualcycle"}     \* (a cycle through a callback is such a local reference)
            /\ bad \subseteq {"reloads_without_external_refs", "resolves_to_same_content"}
